@@ -23,7 +23,7 @@ var VerifHarnesses = map[string]func(*verifrt.T){
 // VerifSetup warms the opcode caches once per engine worker (the compiler runs
 // concretely on the type tokens; the values stay symbolic in the harnesses).
 func VerifSetup() {
-	for _, v := range []interface{}{&vtScalars{}, vtScalars{}, &vtNested{}, &vtRec{}, &vtIface{}, vtInner{}, &vtInner{}, &vsT{}, &vtTags{}, vtTags{}, &vtTop{}, vtTop{}, &vtIface2{}, &vtRecMap{}} {
+	for _, v := range []interface{}{&vtScalars{}, vtScalars{}, &vtNested{}, &vtRec{}, &vtIface{}, vtInner{}, &vtInner{}, &vsT{}, &vtTags{}, vtTags{}, &vtTop{}, vtTop{}, &vtIface2{}, &vtRecMap{}, &vtHolder{}} {
 		Marshal(v)
 		MarshalIndent(v, "", " ")
 		MarshalWithOption(v, Colorize(&ColorScheme{}))
@@ -401,6 +401,8 @@ type vtTags struct {
 	B     uint16  `json:"b,omitempty,string"`
 	M     []int8  `json:"m,omitempty"`
 	PS    *int8   `json:"ps,omitempty,string"`
+	PO    *int8   `json:"po,omitempty"`
+	BS    bool    `json:"bs,omitempty,string"`
 	S     string  `json:"s,omitempty"`
 	PP    **int8  `json:"pp"`
 	Last  *int16  `json:"last,omitempty,string"`
@@ -461,6 +463,15 @@ func refTags(v *vtTags) []byte {
 		b = refInt(b, int64(*v.PS))
 		b = append(b, '"')
 	}
+	if v.PO != nil {
+		sep()
+		b = append(b, `"po":`...)
+		b = refInt(b, int64(*v.PO))
+	}
+	if v.BS {
+		sep()
+		b = append(b, `"bs":"true"`...)
+	}
 	if v.S != "" {
 		sep()
 		b = append(b, `"s":`...)
@@ -482,21 +493,36 @@ func refTags(v *vtTags) []byte {
 	return append(b, '}')
 }
 
+// PART selects which group of members varies (the others stay empty/omitted);
+// the last member varies in both groups (its comma handling depends on what precedes).
 func H_TB_tags(t *verifrt.T) {
-	v := &vtTags{First: symSlice(t, "first"), A: vtI16[t.Choice("a", t.Param("NI16"))], B: vtU16[t.Choice("b", t.Param("NU16"))],
-		M: symSlice(t, "m"), S: plainString(t, "s", 1)}
-	if t.Choice("ps", 2) == 1 {
-		x := int8(smallInt(t, "psv"))
-		v.PS = &x
-	}
-	switch t.Choice("pp", 3) {
-	case 1:
-		var inner *int8
-		v.PP = &inner
-	case 2:
-		x := int8(smallInt(t, "ppv"))
-		inner := &x
-		v.PP = &inner
+	part := t.Param("PART")
+	v := &vtTags{}
+	if part == 0 {
+		v.First = symSlice(t, "first")
+		v.A = vtI16[t.Choice("a", t.Param("NI16"))]
+		v.B = vtU16[t.Choice("b", t.Param("NU16"))]
+		v.M = symSlice(t, "m")
+	} else {
+		if t.Choice("ps", 2) == 1 {
+			x := int8(smallInt(t, "psv"))
+			v.PS = &x
+		}
+		if t.Choice("po", 2) == 1 {
+			x := int8(t.Choice("pov", 2)) // a pointer to 0 is NOT empty
+			v.PO = &x
+		}
+		v.BS = t.Choice("bs", 2) == 1
+		v.S = plainString(t, "s", 1)
+		switch t.Choice("pp", 3) {
+		case 1:
+			var inner *int8
+			v.PP = &inner
+		case 2:
+			x := int8(smallInt(t, "ppv"))
+			inner := &x
+			v.PP = &inner
+		}
 	}
 	if t.Choice("last", 2) == 1 {
 		x := vtI16[1+t.Choice("lastv", 2)*2] // 1 or 256
@@ -528,13 +554,64 @@ type vtTop struct {
 	Extra *VtBase `json:"extra,omitempty"`
 }
 
+type vtNode struct {
+	Child *vtInner    `json:"child,omitempty"`
+	Any   interface{} `json:"any,omitempty"`
+	X     int         `json:"x"`
+}
+
+type vtHolder struct {
+	ID   int      `json:"id"`
+	Node *vtNode  `json:"node"`
+	Tag  string   `json:"tag"`
+	L    []*vtNode `json:"l"`
+}
+
 type vtIface2 struct {
 	A interface{} `json:"a"`
 	L []interface{}
 }
 
 func H_TB_deep(t *verifrt.T) {
-	switch t.Choice("shape", 2) {
+	switch t.Choice("shape", 3) {
+	case 2:
+		// nil / non-nil pointers to a struct whose FIRST member is an omitempty pointer-to-struct,
+		// followed by further members and by slice elements
+		v := &vtHolder{ID: int(smallInt(t, "id")), Tag: plainString(t, "tag", 1)}
+		b := []byte(`{"id":`)
+		b = refInt(b, int64(v.ID))
+		node := func(name string) (*vtNode, []byte) {
+			switch t.Choice(name, 3) {
+			case 1:
+				return &vtNode{X: 2}, []byte(`{"x":2}`)
+			case 2:
+				in := symInner(t, name+".child")
+				out := append([]byte(`{"child":`), refInner(nil, &in)...)
+				return &vtNode{Child: &in, X: 3}, append(out, `,"x":3}`...)
+			}
+			return nil, []byte("null")
+		}
+		var nb []byte
+		v.Node, nb = node("node")
+		b = append(append(b, `,"node":`...), nb...)
+		b = append(b, `,"tag":`...)
+		b = refStr(b, v.Tag)
+		b = append(b, `,"l":`...)
+		switch t.Choice("l", 3) {
+		case 0:
+			b = append(b, "null"...)
+		case 1:
+			n1, b1 := node("l0")
+			v.L = []*vtNode{n1}
+			b = append(append(append(b, '['), b1...), ']')
+		case 2:
+			n1, b1 := node("l0")
+			n2, b2 := node("l1")
+			v.L = []*vtNode{n1, n2}
+			b = append(append(append(append(append(b, '['), b1...), ','), b2...), ']')
+		}
+		b = append(b, '}')
+		checkMarshal(t, v, b)
 	case 0:
 		v := &vtTop{ID: int(smallInt(t, "id"))}
 		v.VtMid.VtBase.ID = int(smallInt(t, "bid"))
